@@ -88,6 +88,7 @@ Print Assumptions C17_compile_errors.
 (* the generated Get/List/Events methods never miss a path field: their path parameters are
    request properties (keys without '/', a base path without ":name" parts) *)
 Theorem C17_query_params_ok : forall e,
+  clean_path (query_base e) = query_base e ->
   path_params (query_base e) = [] ->
   Forall (fun k => no_slash (uf_name (k_def k)) = true) (e_keys e) ->
   query_params_ok e = true.
@@ -172,7 +173,9 @@ Theorem C17_query_service : forall e,
 Proof. exact query_service_methods. Qed.
 Print Assumptions C17_query_service.
 
+(* (clean_path base = base: the base path has no empty elements, so path.Join changes nothing) *)
 Theorem C17_get_events_paths : forall e,
+  clean_path (query_base e) = query_base e ->
   Forall (fun k => no_slash (uf_name (k_def k)) = true) (e_keys e) ->
   nth 0 (query_paths e) [] =
     match get_keys e with
@@ -188,6 +191,7 @@ Print Assumptions C17_get_events_paths.
    the paths are literally /<pkg>/<snake name>/q/{k}.. and .../events over the primary+shard keys *)
 Theorem C17_default_paths : forall e,
   e_base_url e = [] -> ident (e_name e) = true -> no_colon (e_pkg e) = true ->
+  clean_path (query_base e) = query_base e ->
   Forall (fun k => ident (uf_name (k_def k)) = true) (e_keys e) ->
   nth 0 (query_paths e) [] = query_base e ++ flat_map (fun u => 47 :: brace u) (get_keys e)
   /\ nth 2 (query_paths e) [] =
@@ -211,6 +215,7 @@ Print Assumptions C17_camel_name_starts_cap.
 
 Theorem C17_list_path : forall e,
   e_base_url e = [] -> ident (e_name e) = true -> no_colon (e_pkg e) = true ->
+  clean_path (query_base e) = query_base e ->
   Forall (fun k => ident (uf_name (k_def k)) = true) (e_keys e) ->
   nth 1 (query_paths e) [] = query_base e ++ flat_map (fun u => 47 :: brace u) (list_keys e)
   /\ list_keys e = map k_def (filter (fun k => is_key_field (k_def k) && k_shard k) (e_keys e)).
@@ -377,7 +382,8 @@ Example C17_example :
      = [(bs "FOO_S_STATUS_UNSPECIFIED", 0); (bs "FOO_S_STATUS_ACTIVE", 1); (bs "FOO_S_STATUS_INACTIVE", 2)]
   /\ Forall (fun k => no_slash (uf_name (k_def k)) = true) (e_keys C17_sample)
   /\ upper_word (e_name C17_sample) = true /\ fields_ok C17_sample = true
-  /\ path_params (query_base C17_sample) = [] /\ command_params_ok C17_sample = true.
+  /\ path_params (query_base C17_sample) = [] /\ command_params_ok C17_sample = true
+  /\ clean_path (query_base C17_sample) = query_base C17_sample.
 Proof.
   split; [eexists; split; [vm_compute; reflexivity|reflexivity]|].
   repeat split; try (vm_compute; reflexivity). repeat constructor.
